@@ -4,7 +4,7 @@ From Coq Require Import ZifyBool.
 
 Definition obs_of (r : br_result) : br_obs :=
   {| bo_panic := false; bo_err := r_err r; bo_gone := false; bo_status := r_status r; bo_workload := r_workload r;
-     bo_finalizer := r_finalizer r; bo_requeue := match r_requeue r with RqAfter => true | RqNone => false end; bo_view := None |}.
+     bo_finalizer := r_finalizer r; bo_requeue := match r_requeue r with RqAfter => true | RqNone => false end; bo_view := None; bo_in_unknown_kind := false |}.
 
 (* ---------- shape of the status after the sync phase ---------- *)
 (* what execute can do to (phase, batch, state) *)
